@@ -457,6 +457,17 @@ void system_upgrade_flag_set(uint8 flag) {
   sdk_out("UPGFLAG %u", flag);
   if (sdk_upgflag_hook) sdk_upgflag_hook(flag);
 }
+/* what only user_main.c needs (drv_boot) */
+void system_restart(void) {
+  sdk_out("RESTART");
+  sdk_dead = 1;
+  if (sdk_restart_armed) longjmp(sdk_restart_jmp, 1);
+  exit(0);
+}
+bool system_partition_table_regist(const partition_item_t *t, uint32_t n, uint32_t map) { return 1; }
+bool wifi_station_set_hostname(char *name) { return 1; }
+void wifi_status_led_uninstall(void) {}
+void system_print_meminfo(void) {}
 void system_upgrade_reboot(void) {
   sdk_out("UPGREBOOT");
   sdk_dead = 1;
